@@ -254,4 +254,13 @@ def generate(ctx):
         rq = rng.random() < 0.5
         ctx.corr("splitBars", P.op_splitBars(0, rq, piece["tracks"]))
         ctx.check("piece", {"tracks": piece["tracks"], "requant": rq})
+        if i % 3 == 1:
+            # a note that is struck and never released before its track ends (integer input all the same): the pairing helper imputes its
+            # note-off from `standard_length`, the one tick that is computed rather than copied (seeded change C11_agent8)
+            trs = [list(t) for t in piece["tracks"]]
+            j = rng.randrange(len(trs))
+            trs[j] = trs[j] + [G.pm(ON, 0, None, note=rng.choice([67, 72]), vel=80), G.pm(WAIT, 0, rng.choice([6, 12, 30]))]
+            ctx.count("piece:unreleased-note")
+            ctx.check("piece", {"tracks": trs, "requant": rq})
+            ctx.corr("splitBars", P.op_splitBars(0, rq, trs))
         ctx.sample({"init": [init[0], init[1][:4]], "ops": [o[0] for o in ops]})
